@@ -9,6 +9,7 @@ from __future__ import annotations
 
 import ast
 import io
+import os
 import signal
 import sys
 import time
@@ -74,7 +75,10 @@ class default_recursion:
 INTERPRETER_LEAKS: list = []
 
 
-def load_real(repo="/repo"):
+REPO_DEFAULT = os.environ.get("VERIF_REPO", "/repo")   # /repo unless a scratch copy is being examined (tools_seeded --copy)
+
+
+def load_real(repo=REPO_DEFAULT):
     import importlib
     if repo not in sys.path:
         sys.path.insert(0, repo)
